@@ -106,6 +106,9 @@ type Advance struct {
 type DueDate struct {
 	Percent string `json:"percent,omitempty"`
 	Amount  string `json:"amount,omitempty"`
+	// Currency the instalment was agreed in, when not the document's (the
+	// plan then also carries an exchange rate from the document currency to it)
+	Currency string `json:"currency,omitempty"`
 }
 
 // Schema returns the $schema URL of the plan's document kind.
@@ -311,6 +314,9 @@ func (p Plan) Doc() map[string]any {
 				o := obj{"date": fmt.Sprintf("2030-01-%02d", i+1)}
 				if dd.Percent != "" {
 					o["percent"] = dd.Percent
+				}
+				if dd.Currency != "" {
+					o["currency"] = dd.Currency
 				}
 				if dd.Amount != "" {
 					o["amount"] = dd.Amount
